@@ -17,6 +17,7 @@
  *   audio <path>       raw int16 mono samples
  *   start | end        decoder_start_utt / decoder_end_utt
  *   proc <n>           feed the next n samples
+ *   (bp=2: light request for position sweeps: lattice + FSG only, no history dump, no search passes)
  *   lat <tag> <k> <bp> [ops]  request + dump the lattice; k N-best entries; bp=1: bestpath + posterior too;
  *                      ops: a history of further calls on the same lattice (see run_history)
  */
@@ -139,6 +140,8 @@ static void index_lattice(lattice_t *dag, latidx_t *x)
     }
 }
 
+static int g_nohist;   /* sweep requests: skip the (large) history dump */
+
 static void dump_fsg_hist(fsg_search_t *fs)
 {
     fsg_model_t *fsg = fs->fsg;
@@ -166,7 +169,7 @@ static void dump_fsg_hist(fsg_search_t *fs)
             n++;
         }
     }
-    nh = fsg_history_n_entries(fs->history);
+    nh = g_nohist ? 0 : fsg_history_n_entries(fs->history);
     for (i = 0; i < nh; i++) {
         fsg_hist_entry_t *e = fsg_history_entry_get(fs->history, i);
         int li = -1, k;
@@ -217,6 +220,8 @@ static void cmd_lat(const char *tag, int k, int bp, char *ops)
     const char *hyp;
     int32 score = 0;
     if (!fs) { printf("LAT none\n"); return; }
+    g_nohist = (bp == 2);
+    if (bp == 2) bp = 0;
     nhist0 = fsg_history_n_entries(fs->history);
     nword0 = fsg_model_n_word(fs->fsg);
     /* first-best from the history table, before the lattice exists */
